@@ -11,6 +11,7 @@ import (
 
 	"github.com/Shopify/sarama"
 	"verif/harness/cmd/c03/cpgen"
+	"verif/harness/cons"
 	"verif/harness/hlib"
 )
 
@@ -152,6 +153,8 @@ func main() {
 			case strings.HasPrefix(l, "e2e "):
 				t := strings.Fields(l)
 				e2eCase(uint64(hlib.Atoi(t[1])), hlib.Atoi(t[2]))
+			case strings.HasPrefix(l, "cs "):
+				// a consumer scenario against the simulated cluster: handled below by cons.OracleOnly (replay mode)
 			case strings.HasPrefix(l, "start "):
 				t := strings.Fields(l)
 				rn.StartOp(int64(hlib.Atoi(t[1])), int64(hlib.Atoi(t[2])), int64(hlib.Atoi(t[3])))
@@ -159,6 +162,7 @@ func main() {
 				run.Emit(l, "bad-op")
 			}
 		}
+		cons.OracleOnly(run, "C03", []string{"C03:"}, 0)
 		run.Finish("replay")
 		return
 	}
@@ -201,6 +205,13 @@ func main() {
 	for i := 0; i < ne && cpgen.E2EFailures < 3; i++ {
 		e2eCase(run.Seed, i)
 	}
+	// the real Consumer against the simulated cluster (several partitions per broker, slow readers that get unsubscribed,
+	// fetch faults, leader moves, appends while consuming): delivery = the log, in order, once, and it keeps progressing
+	nc := 120
+	if run.Tier == "thorough" {
+		nc = 2500
+	}
+	cons.OracleOnly(run, "C03", []string{"C03:"}, nc)
 	run.Finish("case = one fetch history (reset + responses) of a generated log served by a simulated faithful broker, or one edge case; " +
 		"or one end-to-end scenario (real Consumer against MockBroker); non-trivial = distinct history / scenario that delivered at least one message")
 }
